@@ -69,6 +69,19 @@ func chanSyncLabels(f *an.Func) map[string]an.Site {
 	return out
 }
 
+// c03SyncRegion: the conditions under which the two switches of
+// ProcessChanSyncMsg let the function go on to its final check.
+func c03SyncRegion(L, T, P string) []string {
+	q := regexpQuote
+	return []string{
+		`^!\(\$p1\.RemoteCommitTailHeight > ` + q(L) + `\)$`,
+		`^!\$recv\.channelState\.HasChanStatus\(channeldb\.ChanStatusRestored\)$`,
+		`^!\(\(\$p1\.RemoteCommitTailHeight \+ 1\) < ` + q(L) + `\)$`,
+		`^!\(\$p1\.NextLocalCommitHeight > \(` + q(P) + ` \+ 1\)\)$`,
+		`^!\(\$p1\.NextLocalCommitHeight <= ` + q(T) + `\)$`,
+	}
+}
+
 func runC03(r *an.Run) {
 	p := r.Prog
 	const (
@@ -93,7 +106,7 @@ func runC03(r *an.Run) {
 	}
 
 	r.Obl("local-chain-table", "TABLE",
-		"first switch of ProcessChanSyncMsg over R = msg.RemoteCommitTailHeight vs L = local tail height (all order regions R-L in {-3..+2}), isRestored, hasRecoveryOptions: R>L or restored -> ErrCannotSyncCommitChains without recovery options, ErrCommitSyncLocalDataLoss with them; R<=L-2 -> ErrCommitSyncRemoteDataLoss; R=L-1 -> retransmit revoke_and_ack; R=L -> nothing; the default arm is unreachable",
+		"first switch of ProcessChanSyncMsg over R = msg.RemoteCommitTailHeight vs L = local tail height (all order regions R-L in {-3..+2}), isRestored, hasRecoveryOptions: R>L or restored -> ErrCannotSyncCommitChains without recovery options, ErrCommitSyncLocalDataLoss with them; R<=L-2 -> ErrCommitSyncRemoteDataLoss; R=L-1 -> retransmit revoke_and_ack; R=L -> nothing; the default arm is unreachable; retransmitting means: the result of generateRevocation is appended to the one message list every success return hands out, on every continuing path; a failed generation ends the function; the list is only extended (revocation, re-signed commitment) or merged with the retransmitted commitment, never overwritten",
 		"a shifted boundary either retransmits nothing when a revocation is owed, or declares data loss (force close) on an honest peer", 40,
 		func(o *an.Obl) {
 			f := p.Func(lw + "LightningChannel.ProcessChanSyncMsg")
@@ -137,6 +150,9 @@ func runC03(r *an.Run) {
 					}
 				}
 			}
+			// "retransmit" means the generated revocation ends up in the
+			// returned messages and stays there
+			c03MessageList(o, f)
 		})
 
 	r.Obl("remote-chain-table", "TABLE",
@@ -176,7 +192,7 @@ func runC03(r *an.Run) {
 		})
 
 	r.Obl("unrevoked-commit-point-table", "TABLE",
-		"final check of ProcessChanSyncMsg: the peer's LocalUnrevokedCommitPoint is compared with RemoteCurrentRevocation exactly when msg.NextLocalCommitHeight = remote tail + 1 and with RemoteNextRevocation exactly when it is remote tail + 2 (and with nothing otherwise); the comparison is skipped only for tweakless channels",
+		"final check of ProcessChanSyncMsg: the peer's LocalUnrevokedCommitPoint is compared with RemoteCurrentRevocation exactly when msg.NextLocalCommitHeight = remote tail + 1 and with RemoteNextRevocation exactly when it is remote tail + 2 (and with nothing otherwise); the comparison is skipped only for tweakless channels: the ErrInvalidLocalUnrevokedCommitPoint verdict is restricted by nothing but the recoverable height region, the presence of the peer's point, !tweakless, a selected stored point and the inequality",
 		"comparing against the wrong stored point declares an honest peer's commit point invalid (ErrInvalidLocalUnrevokedCommitPoint -> force close) on legacy channels when the cut falls between their revocation being persisted and delivered", 6,
 		func(o *an.Obl) {
 			f := p.Func(lw + "LightningChannel.ProcessChanSyncMsg")
@@ -233,12 +249,20 @@ func runC03(r *an.Run) {
 				if strings.HasPrefix(name, "InvalidCommitPoint") {
 					guarded(o, f, s, an.Truth(an.CallNamed("IsTweakless", nil), false, "!ChanType.IsTweakless()"))
 					guarded(o, f, s, an.Truth(an.CallNamed("IsEqual", nil, an.FieldPath(an.Param(1), "LocalUnrevokedCommitPoint")), false, "!commitPoint.IsEqual(msg.LocalUnrevokedCommitPoint)"))
+					// and below nothing else: the heights are in a recoverable
+					// region, the peer sent the point, a stored point was selected
+					c03OnlyGuards(o, f, s, append(c03SyncRegion(L, T, P),
+						`^\(\$p1\.LocalUnrevokedCommitPoint != nil\)$`,
+						`^!\$recv\.channelState\.ChanType\.IsTweakless\(\)$`,
+						`^\(\$v:\*[A-Za-z0-9_./]*\.PublicKey != nil\)$`,
+						`^!\$v:\*[A-Za-z0-9_./]*\.PublicKey\.IsEqual\(\$p1\.LocalUnrevokedCommitPoint\)$`,
+					), "invalid-commit-point verdict")
 				}
 			}
 		})
 
 	r.Obl("data-loss-needs-verified-secret", "TABLE",
-		"with recovery options present and a non-zero claimed height, a wrong LastRemoteCommitSecret leads to ErrInvalidLastCommitSecret and never to a data-loss verdict; the secret compared is RevocationProducer.AtIndex(msg.RemoteCommitTailHeight-1)",
+		"with recovery options present and a non-zero claimed height (probed at several heights including 1, restored or not), a wrong LastRemoteCommitSecret leads to ErrInvalidLastCommitSecret and never to a data-loss verdict; the verdict has no further condition; the secret compared is RevocationProducer.AtIndex(msg.RemoteCommitTailHeight-1)",
 		"an unauthenticated height claim must not make the node declare local data loss and hand its funds to the peer's force close", 3,
 		func(o *an.Obl) {
 			f := p.Func(lw + "LightningChannel.ProcessChanSyncMsg")
@@ -258,22 +282,43 @@ func runC03(r *an.Run) {
 			if !strings.Contains(secretAtom, "RevocationProducer.AtIndex(("+R+" - 1))") {
 				o.FailAt(f.ID+"#secret-index", f.Where(f.Body.Pos()), "the commit secret is compared against %s, expected our secret for height msg.RemoteCommitTailHeight-1", secretAtom)
 			}
-			env := an.IntEnv{Ints: map[string]int64{R: 12, L: 10}, Bools: map[string]bool{rec: true, secretAtom: false, rst: false}}
-			got := reached(f, labels, env, []string{"LocalDataLoss#1", "InvalidSecret#1", "RemoteDataLoss#1", "RemoteDataLoss#2"})
-			o.Site("wrong secret, R=L+2, recovery options -> %v", got)
-			if strings.Join(got, ",") != "InvalidSecret#1" {
-				o.FailAt(f.ID+"#wrong-secret", f.Where(f.Body.Pos()), "with a wrong commit secret the reachable verdicts are %v, expected only ErrInvalidLastCommitSecret", got)
+			// every non-zero claimed height (also the smallest one), restored
+			// or not
+			for _, hv := range [][2]int64{{12, 10}, {1, 0}, {3, 3}, {1, 1}} {
+				for _, restored := range []bool{false, true} {
+					env := an.IntEnv{Ints: map[string]int64{R: hv[0], L: hv[1]}, Bools: map[string]bool{rec: true, secretAtom: false, rst: restored}}
+					got := reached(f, labels, env, []string{"LocalDataLoss#1", "InvalidSecret#1", "RemoteDataLoss#1", "RemoteDataLoss#2", "CannotSync#1"})
+					o.Site("wrong secret, R=%d L=%d restored=%v, recovery options -> %v", hv[0], hv[1], restored, got)
+					if strings.Join(got, ",") != "InvalidSecret#1" {
+						o.FailAt(f.ID+fmt.Sprintf("#wrong-secret-R%d-L%d-rst%v", hv[0], hv[1], restored), f.Where(f.Body.Pos()), "with a wrong commit secret (claimed height %d, local tail %d, restored=%v) the reachable verdicts are %v, expected only ErrInvalidLastCommitSecret", hv[0], hv[1], restored, got)
+					}
+					if hv[0] <= hv[1] && !restored {
+						continue
+					}
+					env.Bools[secretAtom] = true
+					got = reached(f, labels, env, []string{"LocalDataLoss#1", "InvalidSecret#1"})
+					o.Site("correct secret, R=%d L=%d restored=%v, recovery options -> %v", hv[0], hv[1], restored, got)
+					if strings.Join(got, ",") != "LocalDataLoss#1" {
+						o.FailAt(f.ID+fmt.Sprintf("#right-secret-R%d-L%d-rst%v", hv[0], hv[1], restored), f.Where(f.Body.Pos()), "with a correct commit secret, claimed height %d, local tail %d, restored=%v the reachable verdicts are %v, expected ErrCommitSyncLocalDataLoss", hv[0], hv[1], restored, got)
+					}
+				}
 			}
-			env.Bools[secretAtom] = true
-			got = reached(f, labels, env, []string{"LocalDataLoss#1", "InvalidSecret#1"})
-			o.Site("correct secret, R=L+2, recovery options -> %v", got)
-			if strings.Join(got, ",") != "LocalDataLoss#1" {
-				o.FailAt(f.ID+"#right-secret", f.Where(f.Body.Pos()), "with a correct commit secret and R>L the reachable verdicts are %v, expected ErrCommitSyncLocalDataLoss", got)
+			// the verdict is given under exactly: recovery options, non-zero
+			// claimed height, our secret derived, secrets differ
+			if s, ok := labels["InvalidSecret#1"]; ok {
+				c03OnlyGuards(o, f, s, []string{
+					`^\(\$p1\.LocalUnrevokedCommitPoint != nil\)$`,
+					`^\(\$p1\.RemoteCommitTailHeight != 0\)$`,
+					`^!\(\$recv\.channelState\.RevocationProducer\.AtIndex\(\(\$p1\.RemoteCommitTailHeight - 1\)\)#1 != nil\)$`,
+					`^!bytes\.Equal\(`,
+				}, "invalid-secret verdict")
+			} else {
+				o.FailAt(f.ID+"#label-InvalidSecret#1", f.Where(f.Body.Pos()), "the ErrInvalidLastCommitSecret return is gone")
 			}
 		})
 
 	r.Obl("revocation-heights", "GUARD",
-		"ProcessChanSyncMsg retransmits generateRevocation(localTailHeight-1), RevokeCurrentCommitment calls generateRevocation(currentHeight); generateRevocation derives the secret with AtIndex(height) and the next point with AtIndex(height+2); lnwire.RevokeAndAck values are built only there",
+		"ProcessChanSyncMsg retransmits generateRevocation(localTailHeight-1), RevokeCurrentCommitment calls generateRevocation(currentHeight); generateRevocation derives the secret with AtIndex(height) and copies it into Revocation, derives the next point from AtIndex(height+2) and stores it in NextRevocationKey, on every success path of the message it returns; lnwire.RevokeAndAck values are built only there",
 		"the revocation stream must follow the derivation chain without gaps or repeats (C06) and the retransmitted one must be the one the peer is missing", 6,
 		func(o *an.Obl) {
 			f := p.Func(lw + "LightningChannel.ProcessChanSyncMsg")
@@ -307,6 +352,7 @@ func runC03(r *an.Run) {
 			if strings.Join(forms, " ") != "$p0 ($p0 + 2)" {
 				o.FailAt(h.ID+"#AtIndex-forms", h.Where(h.Body.Pos()), "generateRevocation derives secrets at %v, expected [height, height+2]", forms)
 			}
+			c03RevocationDataflow(o, p)
 			w := r.Wide()
 			w.WhoMay(o, "lnwallet.LightningChannel.generateRevocation", w.RefsTo(w.Method("lnwallet", "LightningChannel", "generateRevocation"), true), map[string]string{
 				lw + "LightningChannel.RevokeCurrentCommitment": "revocation after a durable new commitment (C02)",
@@ -325,7 +371,7 @@ func runC03(r *an.Run) {
 		})
 
 	r.Obl("commitment-retransmitted-from-disk", "PATH",
-		"in the owe-commitment arm the messages are built from channelState.RemoteCommitChainTip(): every LogUpdate.UpdateMsg of the diff, then the stored CommitSig; taproot channels pass resignMusigCommit first; the order relative to the revocation follows channelState.LastWasRevoke (true: commitment first, false: revocation first)",
+		"in the owe-commitment arm the messages are built from channelState.RemoteCommitChainTip(): every LogUpdate.UpdateMsg of the diff (each iteration appends), then the stored CommitSig; taproot channels pass resignMusigCommit(the diff's CommitTx) first and store its result into that CommitSig; a failed read or re-sign ends the function; the order relative to the revocation follows channelState.LastWasRevoke (true: commitment first, false: revocation first)",
 		"retransmitting anything but the durable diff, or in the wrong order relative to the revocation, makes the peer reject the signature", 5,
 		func(o *an.Obl) {
 			f := p.Func(lw + "LightningChannel.ProcessChanSyncMsg")
@@ -407,10 +453,11 @@ func runC03(r *an.Run) {
 					o.FailAt(f.ID+"#resign-before-commitsig", cu[1].Where(), "a taproot channel can retransmit the stored CommitSig without re-signing with the fresh nonce: %s", bad[0])
 				}
 			}
+			c03RetransmittedCommitment(o, f, tip, resign, cu)
 		})
 
 	r.Obl("reestablish-fields-agree", "MIRROR",
-		"OpenChannel.ChanSyncMsg sets NextLocalCommitHeight = LocalCommitment.CommitHeight+1, RemoteCommitTailHeight = RemoteCommitment.CommitHeight, LastRemoteCommitSecret = RevocationStore.LookUp(that-1), LocalUnrevokedCommitPoint = ComputeCommitmentPoint(RevocationProducer.AtIndex(local height)); the receiver compares exactly those fields",
+		"OpenChannel.ChanSyncMsg sets NextLocalCommitHeight = LocalCommitment.CommitHeight+1, RemoteCommitTailHeight = RemoteCommitment.CommitHeight, LastRemoteCommitSecret = RevocationStore.LookUp(that-1), LocalUnrevokedCommitPoint = ComputeCommitmentPoint(RevocationProducer.AtIndex(local height)); the literal's fields are these values (the looked-up secret is copied whenever the remote height is non-zero) and the literal is what is returned; the receiver compares exactly those fields",
 		"the two ends of the reestablish handshake must talk about the same heights, or an honest peer is judged to have lost data", 5,
 		func(o *an.Obl) {
 			f := p.Func("chanstate.OpenChannel.ChanSyncMsg")
@@ -475,6 +522,7 @@ func runC03(r *an.Run) {
 			if len(at) != 1 || f.ArgCanon(at[0])[0] != "$recv.LocalCommitment.CommitHeight" {
 				o.FailAt(f.ID+"#AtIndex", f.Where(f.Body.Pos()), "the unrevoked commit point must come from RevocationProducer.AtIndex(local height)")
 			}
+			c03ReestablishSources(o, f, lit)
 		})
 	commitStoreTransactions(r)
 	windowDiscipline(r)
